@@ -48,6 +48,15 @@ Theorem C19_progress_threads : forall orc sh schedule i exc sh',
 Proof. intros orc sh schedule i exc sh' g. apply exit_frees. apply grun_inv. apply GInv_init. Qed.
 Print Assumptions C19_progress_threads.
 
+(* Database.disconnect() between sessions (whether or not close() raises): afterwards the pool is empty, the lock is free and every
+   connection this thread ever created has been closed exactly once (AccT false: all ids are in the duplicate-free `closed` list);
+   the state is well formed and idle, so every theorem above applies to the sessions that follow. *)
+Theorem C19_disconnect : forall oracle s, WF s -> k_reg s = false -> lock s = false ->
+  exists r s', db_disconnect oracle s = (r, s') /\ r <> Blocked /\ WF s' /\ k_reg s' = false /\ p_has s' = false /\ lock s' = false /\
+    AccT false (p_id s') (next s') (closed s').
+Proof. exact disconnect_lemma. Qed.
+Print Assumptions C19_disconnect.
+
 (* Later sessions never fail because of an earlier session: after ANY sequence of sessions with ANY faults, a session in which
    no DB-API call fails any more (oracle false from the current call index on) and whose body does not itself raise
    (benign: every operation except `raise`) succeeds - result Ok, lock free, idle again.  (Holds since /repo 54964b5; before it,
